@@ -26,6 +26,7 @@ func init() {
 			{Name: "every-first-two-octets", Tiers: "qt", ShardDepth: 3, Run: c01FirstOctets},
 			{Name: "many-elements-large-payloads", Tiers: "qt", ShardDepth: 3, Run: c01Large},
 			{Name: "two-elements-full-id-and-length-ranges", Tiers: "qt", ShardDepth: 3, Run: c01Pairs},
+			{Name: "extension-values-of-marker-octets", Tiers: "qt", ShardDepth: 3, Run: c01MarkerValues},
 		},
 	})
 }
@@ -337,4 +338,52 @@ func c01FirstOctets(c *mc.Ctx) {
 		c01Oracle(c, p, w)
 	}
 	c.Cases(255)
+}
+
+// c01MarkerValues: extension values whose octets look like what the parser gives a meaning to
+// (0x00 = fill octet, 0xFF = id 15 / length 15, 0x10 = a header octet): every string of 1..4
+// octets over that alphabet as the first value, a small menu for an optional second one, with a
+// payload that is absent, all zero or ordinary, with and without RTP padding, in both profiles.
+var c01MarkerAlphabet = []byte{0x00, 0xFF, 0x10}
+
+func c01MarkerValues(c *mc.Ctx) {
+	p := &rtp.Packet{}
+	f := fixedPresets[0]
+	p.Version, p.Marker, p.PayloadType, p.SequenceNumber, p.Timestamp, p.SSRC = f.version, f.marker, f.pt, f.seq, f.ts, f.ssrc
+	w := newWire(f)
+	twoByte := c.Bool()
+	if twoByte {
+		w.setProfile(0x1000)
+		p.Extension, p.ExtensionProfile = true, 0x1000
+	} else {
+		w.setProfile(0xBEDE)
+	}
+	l := 1 + c.Pick(4)
+	v := make([]byte, l)
+	for i := range v {
+		v[i] = mc.From(c, c01MarkerAlphabet)
+	}
+	second := mc.From(c, [][]byte{nil, {0x00}, {0x00, 0x00, 0x00}, {0x5A, 0x00}, {0xFF}, {0x00, 0x5A}, {0x5A}})
+	if err := p.SetExtension(1, v); err != nil {
+		c.Failf("setextension-refused", "SetExtension(1,%s): %v", hx(v), err)
+	}
+	w.addElem(1, clone(v))
+	if second != nil {
+		if err := p.SetExtension(2, second); err != nil {
+			c.Failf("setextension-refused", "SetExtension(2,%s): %v", hx(second), err)
+		}
+		w.addElem(2, clone(second))
+	}
+	switch c.Pick(3) {
+	case 1:
+		p.Payload = []byte{0, 0, 0}
+	case 2:
+		p.Payload = fill(3, 0xA1)
+	}
+	if c.Bool() {
+		p.Padding, p.PaddingSize = true, 2
+		w.w.PadSize = 2
+	}
+	w.w.Payload = clone(p.Payload)
+	c01Oracle(c, p, w)
 }
